@@ -87,6 +87,16 @@ func (v *PacketDslVisitorImpl) VisitPacket(ctx *gen.PacketContext) interface{} {
 			switch c := decl.(type) {
 			case *gen.RefMetaDataDeclarationContext:
 				result := v.VisitRefMetaDataDeclaration(c).(model.MetaData)
+				if result.Attr == nil {
+					// the referenced entry does not exist (yet): an entry without a type would
+					// crash every later use, so report it and leave it out
+					v.BinModel.AddSyntaxError(&model.SyntaxError{
+						Line:   result.Line,
+						Column: result.Column,
+						Msg:    "Unknown metadata type " + c.GetTyp().GetText() + " for " + result.Name,
+					})
+					continue
+				}
 				v.BinModel.AddMetaData(result)
 			case *gen.MetaDataDeclarationContext:
 				result := v.metaDataDeclarationToMetaData(c).(model.MetaData)
